@@ -22,6 +22,7 @@ SP = 'exactly_lib/test_suite/reporters/simple_progress_reporter.py'
 JU = 'exactly_lib/test_suite/reporters/junit.py'
 COMB = 'exactly_lib/util/interval/w_inversion/combinations.py'
 INTS = 'exactly_lib/util/interval/w_inversion/intervals.py'
+TR = 'exactly_lib/impls/types/string_transformer/impl/filter/line_nums/transformers.py'
 RM = 'exactly_lib/impls/types/string_transformer/impl/filter/line_nums/range_merge.py'
 
 # (target, name, expected 'pass'|'fail', file, [(old, new), ...])
@@ -60,6 +61,20 @@ CASES = [
     ('LineNums', 'r2-while-loop-refused', 'refused', RM, [
         ('    for from_to in segments:\n        if from_to[0] <= initial + 1:',
          '    while False:\n        pass\n    for from_to in segments:\n        if from_to[0] <= initial + 1:')]),
+    ('LineNums', 't-h1-elif-to-nested-if', 'pass', TR, [
+        ('        if line_num == 0:\n            return sources.empty(self._source_model,\n                                 self._transformer_description)\n        elif line_num > 0:\n            return sources.single_non_neg_int_source(',
+         '        if line_num == 0:\n            return sources.empty(self._source_model,\n                                 self._transformer_description)\n        if line_num > 0:\n            return sources.single_non_neg_int_source(')]),
+    ('LineNums', 't-m1-single-line-off-by-one', 'fail', TR, [('self._source_model, line_num - 1)', 'self._source_model, line_num)')]),
+    ('LineNums', 't-m2-empty-range-test-ge', 'fail', TR, [
+        ('    def _lower_and_upper__non_neg(self, lower: int, upper: int) -> StringSource:\n        if lower > upper:',
+         '    def _lower_and_upper__non_neg(self, lower: int, upper: int) -> StringSource:\n        if lower >= upper:')]),
+    ('LineNums', 't-m3-upper-not-zero-based', 'fail', TR, [('        if upper > 0:\n            upper -= 1\n', '')]),
+    ('LineNums', 't-m4-wrong-source-for-neg-upper', 'fail', TR, [
+        ('            return sources.upper_neg_limit_source(self._mem_buff_size,', '            return sources.lower_neg_limit_source(self._mem_buff_size,')]),
+    ('LineNums', 't-m5-arguments-swapped', 'fail', TR, [('self._source_model, lower, upper)\n\n    def _lower_and_upper__neg', 'self._source_model, upper, lower)\n\n    def _lower_and_upper__neg')]),
+    ('LineNums', 't-m6-everything-treated-as-empty', 'fail', TR, [('        elif merged_ranges.is_everything():\n            return model',
+                                                                   '        elif merged_ranges.is_everything():\n            return sources.empty(model, self._get_structure)')]),
+    ('LineNums', 'seeded-C13-m2 (state kept in the transformer)', 'refused', 'seeded/C13-m2/patch.diff', []),
     ('Interval', 'unchanged', 'pass', COMB, []),
     ('Interval', 'h1-rename-locals', 'pass', COMB, [('non_none_lowers', 'los'), ('non_none_uppers', 'his'), ('ret_val', 'acc')]),
     ('Interval', 'h2-equivalent-rewrite', 'pass', COMB, [('if lower is not None and upper is not None and lower > upper',
@@ -74,6 +89,7 @@ CASES = [
                                                                     'return WithCustomInversion(self._pos, self._inversion)')]),
     ('Interval', 'm8-union-drop-empty-check', 'fail', COMB, [('def union(a: IntIntervalWInversion, b: IntIntervalWInversion) -> IntIntervalWInversion:\n    if a.is_empty:\n        return b\n',
                                                              'def union(a: IntIntervalWInversion, b: IntIntervalWInversion) -> IntIntervalWInversion:\n')]),
+    ('Interval', 'seeded-C13-m1 (Finite.inversion)', 'fail', 'seeded/C13-m1/patch.diff', []),
     ('Outcome', 'unchanged', 'pass', FR, []),
     ('Outcome', 'h1-rename-parameter', 'pass', FR, [('ps: Optional[ExecutionFailureStatus]', 'partial_status: Optional[ExecutionFailureStatus]'),
                                                     ('if ps is ExecutionFailureStatus.FAIL', 'if partial_status is ExecutionFailureStatus.FAIL'),
@@ -94,6 +110,8 @@ CASES = [
     ('Reporters', 'm1-xfail-not-success', 'fail', SP, [('                    FullExeResultStatus.SKIPPED,\n                    FullExeResultStatus.XFAIL\n', '                    FullExeResultStatus.SKIPPED,\n')]),
     ('Reporters', 'm2-junit-hard-error-is-failure', 'fail', JU, [('FAIL_STATUSES = {FullExeResultStatus.FAIL,', 'FAIL_STATUSES = {FullExeResultStatus.FAIL, FullExeResultStatus.HARD_ERROR,')]),
     ('Reporters', 'm3-junit-validation-not-error', 'fail', JU, [('                  FullExeResultStatus.VALIDATION_ERROR,\n', '')]),
+    # changes how the set is USED, not the set: outside what this tie covers (the behavioural checks of C16 catch it)
+    ('Reporters', 'seeded-C16-m1 (use site only)', 'pass', 'seeded/C16-m1/patch.diff', []),
 ]
 
 DEPS = {  # compiled files of /verif/coq the proof needs (copied, not rebuilt)
@@ -116,12 +134,15 @@ def run_case(target, name, expect, rel, edits, root):
     shutil.rmtree(os.path.join(root, name), ignore_errors=True)
     shutil.copytree(os.path.join(common.REPO, 'src', 'exactly_lib'), os.path.join(src, 'exactly_lib'),
                     ignore=shutil.ignore_patterns('__pycache__'))
-    path = os.path.join(src, rel)
-    txt = open(path).read()
-    for old, new in edits:
-        assert old in txt, (name, old)
-        txt = txt.replace(old, new)
-    open(path, 'w').write(txt)
+    if rel.endswith('.diff'):  # a stored patch (seeded change), applied to the scratch copy
+        subprocess.run(['patch', '-s', '-p2', '-d', src, '-i', os.path.join(common.VERIF, rel)], check=True)
+    else:
+        path = os.path.join(src, rel)
+        txt = open(path).read()
+        for old, new in edits:
+            assert old in txt, (name, old)
+            txt = txt.replace(old, new)
+        open(path, 'w').write(txt)
     for d in ('Lib', 'Model', 'Proofs', 'Gen'):
         os.makedirs(os.path.join(scratch, d))
     for dep in DEPS[target]:
@@ -131,7 +152,7 @@ def run_case(target, name, expect, rel, edits, root):
     except py2coq.Unsupported as ex:
         return 'refused', str(ex)
     a, b = [open(os.path.join(d, 'Gen', 'Src_%s.v' % target)).read() for d in (scratch, common.COQ)]
-    strip = lambda t: re.sub(r'lines \d+-\d+ sha256:[0-9a-f]+', '', t)
+    strip = lambda t: re.sub(r'lines \d+-\d+ sha256:[0-9a-f]+|\.py:\d+:', '', t)
     same = 'byte-identical' if a == b else 'identical up to line numbers and source hashes in comments' if strip(a) == strip(b) else 'different text'
     rc, out = coqc(scratch, 'Gen/Src_%s.v' % target)
     if rc != 0:
